@@ -871,6 +871,11 @@ async def _main(rec, scn, probes):
             fn = make_sync_handler(rec, hd, b)
         else:
             fn = make_async_handler(rec, hd, b)
+        if kind == 'async' and hd.get('retry'):
+            # the handler is decorated with @retry (per-attempt timeout longer than the event's): cancellation by the bus has to go through it
+            name = fn.__name__
+            fn = H.retry(wait=0, retries=int(hd['retry'].get('retries', 0)), timeout=hd['retry']['timeout'] / 1000.0)(fn)
+            fn.__name__ = fn.__qualname__ = name
         if kind != 'fwd' and hd.get('form', 'func') != 'func':
             fn = _as_member(fn, hd['id'], hd['form'], kind == 'sync')
         rec.keep.append(fn)
